@@ -397,8 +397,10 @@ inductive StepRes
 
 /-- One round of the `for len(b) > 0` loop of `Conn.Write` (`b` non-empty).  `valid` is the result
 of `CheckExistenceAndValidity` (constant during one call in a sequential history); `cap + 1` is the
-smaller of the two buckets' remaining capacities in this round (the buckets only call back with a
-remaining capacity ≥ 1). -/
+smaller of the two buckets' remaining capacities in this round — the connection's own and the one
+shared by the shape; each only calls back with a remaining capacity ≥ 1, and the inner closure
+reassigns `max = min(rem, max)` before `conn.Write(b[:max])` and the loop's `b = b[max:]` (fact
+`facts_write_chunk_is_what_is_skipped`), so one `m` is both written and skipped. -/
 def stepLoop (valid : Bool) (cap : Nat) (s : Loop) (b : Bytes) : StepRes :=
   let amt := amount b.length s.off s.next
   if amt < 0 then .done s .panic       -- `b[:max]` with a negative bound
